@@ -204,6 +204,32 @@ func findConstSwitches(c *Ctx, p *packages.Package) []*constSwitch {
 					case *ast.TypeSwitchStmt, *ast.SwitchStmt:
 						walk(m)
 						return false
+					case *ast.IndexExpr:
+						// the same table written as data: T[x.Op] on a read-only map literal keyed by the named constants
+						if tl := tableLiteral(c, info, y.X); tl != nil {
+							if tv, ok := info.Types[y.Index]; ok {
+								if _, isNamed := tv.Type.(*types.Named); isNamed {
+									cs := &constSwitch{pos: y.Pos(), tagType: namedTypeName(tv.Type), fn: declID(p, fd),
+										cases: map[string]string{}, casePos: map[string]token.Pos{}}
+									if len(armStack) > 0 {
+										cs.armNode = armStack[len(armStack)-1]
+									}
+									good := true
+									for _, en := range tl.entries {
+										k, v := constName(tl.info, en.key), constName(tl.info, en.val)
+										if k == "" || v == "" {
+											good = false
+											break
+										}
+										cs.cases[k] = v
+										cs.casePos[k] = en.key.Pos()
+									}
+									if good && len(cs.cases) > 0 {
+										out = append(out, cs)
+									}
+								}
+							}
+						}
 					case *ast.CallExpr:
 						// a helper introduced since the reference was written belongs to the arm that calls it
 						if cal := Callee(info, y); cal != nil && cal.Pkg() == p.Types && isNewFunc(FuncID(cal)) && len(helperStack) < 3 {
